@@ -183,6 +183,17 @@ def run_case(ctx, case):
                 for j in range(nq):
                     okj, why = nn.knn_ok(metric, D[j], ind[j], None if dd is None else dd[j], k, scale)
                     ctx.check("knn", okj, dict(sig, with_distance=with_d, why=(why or "").split(":")[0][:40]), dict(det, k=k, why=why, query=j))
+                # the caller's array of query points is the caller's: asking again with the very same array object (a loop over
+                # k, or k-NN followed by a radius query) gives the answer for the same points
+                if isinstance(coords, np.ndarray) and qi % 2 == 1:
+                    try:
+                        ind2 = tree.query(coords, k=k, in_radians=in_rad, return_distance=False)
+                        ind2 = np.asarray(ind2).reshape(nq, -1) if np.size(ind2) == nq * k else None
+                        ok2 = ind2 is not None and all(nn.knn_ok(metric, D[j], ind2[j], None, k, scale)[0] for j in range(nq))
+                        ctx.check("knn", ok2, dict(sig, with_distance=False, why="", reuse="same_query_array_again"), dict(det, k=k))
+                        ctx.check("knn", bool(np.array_equal(np.asarray(det["coords"]), coords)), dict(sig, why="query array modified", reuse="same_query_array_again"), dict(det, now=np.asarray(coords).tolist()))
+                    except Exception as e:
+                        ctx.check("no_exception", False, dict(sig, stage="query_again", exc=core.exc_sig(e)), dict(det, exc=repr(e), k=k))
             else:
                 if system == "spherical" and ttype == "kd":
                     in_rad = True
